@@ -247,9 +247,10 @@ def _end_to_end(ctx, rep):
     ]
     ints = [None, -3, 0, 1, 2, 2**53 + 1, -(2**62)]
     floats = [None, NAN, -1.5, 0.0, 1.0, 2.5, float("inf")]
-    strs = [None, "", "10", "9", "a", "b", "é", "名"]
+    strs = [None, "", "10", "9", "a", "b", "é", "名", "customer-0123456789", "customer-0123456789-a", "customer-0123456789-b", "customer-01234567"]
     dates = [None, dt.date(2020, 1, 1), dt.date(2020, 1, 2), dt.date(1999, 12, 31)]
-    tss = [None, dt.datetime(2020, 1, 1, 0, 0, 0), dt.datetime(2020, 1, 1, 0, 0, 1), dt.datetime(2021, 6, 1)]
+    tss = [None, dt.datetime(2020, 1, 1, 0, 0, 0), dt.datetime(2020, 1, 1, 0, 0, 1), dt.datetime(2021, 6, 1),
+           dt.datetime(2020, 1, 1, 0, 0, 0, 100), dt.datetime(2020, 1, 1, 0, 0, 0, 900)]
     bools = [None, True, False]
     f32 = [None, 0.5, 1.5, 0.1, NAN]
     pools = {"i": ints, "f": floats, "s": strs, "d": dates, "t": tss, "b": bools, "g": f32}
@@ -304,16 +305,58 @@ def _end_to_end(ctx, rep):
         shutil.rmtree(base, ignore_errors=True)
 
 
+def _big_files(ctx, rep):
+    """files larger than the writer's internal batch (1000 rows): bounds must cover every batch"""
+    from datashard import Schema, create_table
+    import datashard.filters as F
+    base = scratch_dir("c13b-")
+    orig = F.prune_files_by_bounds
+    try:
+        fields = [{"id": 1, "name": "i", "type": "long", "required": True}, {"id": 2, "name": "f", "type": "double", "required": False},
+                  {"id": 3, "name": "s", "type": "string", "required": False}]
+        for n, order in ((2500, "asc"), (2500, "desc"), (1001, "asc"), (3000, "zigzag")):
+            path = os.path.join(base, f"b{n}{order}")
+            t = create_table(path, Schema(schema_id=1, fields=fields))
+            ids = list(range(n))
+            if order == "desc":
+                ids.reverse()
+            elif order == "zigzag":
+                ids = [x if (x // 1000) % 2 == 0 else (x // 1000) * 1000 + 999 - x % 1000 for x in ids]
+            t.append_records([{"i": x, "f": -float(x), "s": f"k{x:05d}"} for x in ids])
+            t.append_records([{"i": n + 10, "f": 1.0, "s": "zz"}])
+            for col, mk in (("i", lambda x: x), ("f", lambda x: -float(x)), ("s", lambda x: f"k{x:05d}")):
+                for x in (0, 1, 998, 999, 1000, 1001, 1999, 2000, n - 1, n):
+                    for op in ("==", ">", ">=", "<", "<="):
+                        flt = {col: (op, mk(x))}
+                        F.prune_files_by_bounds = lambda data_files, expressions, schema: data_files
+                        try:
+                            unpruned = t.scan(filter=flt, columns=["i"])
+                        finally:
+                            F.prune_files_by_bounds = orig
+                        pruned = t.scan(filter=flt, columns=["i"])
+                        rep.evaluations += 1
+                        rep.nontrivial(["big", n, order, repr(flt)])
+                        if sorted(r["i"] for r in pruned) != sorted(r["i"] for r in unpruned):
+                            rep.violate("C13:pruned-differs-from-unpruned", f"{n}-row file ({order}): {flt} → {len(pruned)} rows with pruning, "
+                                        f"{len(unpruned)} without", {"kind": "big-file", "rows": n, "order": order, "filter": repr(flt)})
+            shutil.rmtree(path, ignore_errors=True)
+    finally:
+        F.prune_files_by_bounds = orig
+        shutil.rmtree(base, ignore_errors=True)
+
+
 def run(ctx, model_ok):
     rep = Report()
     rep.rule = ("exhaustive: column multisets of size ≤3 (thorough ≤4) over {NULL,NaN,-1,0,1,2} × every operator × literal in "
                 "{NULL,NaN,-1..3} / value sets ≤2 over {NULL,NaN,0,1,3}; codec value list; random multi-file tables over 7 column types "
-                "comparing pruned vs unpruned scans. non-trivial = the file is actually skipped / the filter removes rows; "
+                "(incl. strings sharing a 16+ character prefix, sub-millisecond timestamps) comparing pruned vs unpruned scans; files of 1001–3000 "
+                "rows (beyond the writer's batch size) in ascending / descending / zigzag order × thresholds around the batch edges. non-trivial = the file is actually skipped / the filter removes rows; "
                 "distinct = distinct (values, filter) or (table, filter).")
     _check_decisions(ctx, rep, model_ok)
     _check_codec(ctx, rep, model_ok)
     _directed(ctx, rep)
     _end_to_end(ctx, rep)
+    _big_files(ctx, rep)
     rep.exhaustive = True
     return rep
 
